@@ -40,6 +40,8 @@ type CacheOp struct {
 	Err    bool
 	Fault  CacheFault
 	Stored []string // SetMany: keys actually stored
+	Run    int      // client request index (set by the harness through Mark)
+	Seq    int      // number of upstream requests recorded in that run when the call was made
 }
 
 // RecordingCache implements caching.Cache; entries never expire (time is outside the lab).
@@ -48,6 +50,7 @@ type RecordingCache struct {
 	m      map[string]caching.Item
 	Log    []CacheOp
 	Faults map[int]CacheFault // by call index
+	Mark   func() (run, seq int)
 }
 
 func NewRecordingCache() *RecordingCache {
@@ -59,6 +62,9 @@ func (c *RecordingCache) GetMany(ctx context.Context, keys []string) (map[string
 	defer c.mu.Unlock()
 	f := c.Faults[len(c.Log)]
 	op := CacheOp{Get: true, Keys: append([]string{}, keys...), Fault: f}
+	if c.Mark != nil {
+		op.Run, op.Seq = c.Mark()
+	}
 	switch f {
 	case CFGetErr:
 		op.Err = true
@@ -91,6 +97,9 @@ func (c *RecordingCache) SetMany(ctx context.Context, items []caching.Item) erro
 	defer c.mu.Unlock()
 	f := c.Faults[len(c.Log)]
 	op := CacheOp{Fault: f}
+	if c.Mark != nil {
+		op.Run, op.Seq = c.Mark()
+	}
 	for _, it := range items {
 		op.Keys = append(op.Keys, it.Key)
 		op.Values = append(op.Values, string(it.Value))
